@@ -174,21 +174,21 @@ func (c *Ctx) ruleSitesIMM() {
 			// ---- dispatch
 			switch {
 			case receiverForm && s.Code == "IMM01":
-				c.dispatch(si, rule, []string{"AssignStmt<node>", "StarExpr<AssignStmt.Lhs[]>", "Ident<StarExpr.X>"})
+				c.dispatch(si, rule, []string{"AssignStmt<node>", "StarExpr<unparen(AssignStmt.Lhs[])>", "Ident<unparen(StarExpr.X)>"})
 				c.require(si, rule, "TOK(=)", si.take("tok", func(l Lit) bool { return l.Pos && tokAtom(l, "go/ast.AssignStmt", token.ASSIGN) }), "IMM01 must be reported for plain assignment (Tok == ASSIGN) only")
 			case receiverForm && s.Code == "IMM03":
-				c.dispatch(si, rule, []string{"IncDecStmt<node>", "StarExpr<IncDecStmt.X>", "Ident<StarExpr.X>"})
+				c.dispatch(si, rule, []string{"IncDecStmt<node>", "StarExpr<unparen(IncDecStmt.X)>", "Ident<unparen(StarExpr.X)>"})
 			case s.Code == "IMM01":
-				c.dispatch(si, rule, []string{"AssignStmt<node>", "SelectorExpr<AssignStmt.Lhs[]>"})
+				c.dispatch(si, rule, []string{"AssignStmt<node>", "SelectorExpr<unparen(AssignStmt.Lhs[])>"})
 				c.require(si, rule, "TOK(=)", si.take("tok", func(l Lit) bool { return l.Pos && tokAtom(l, "go/ast.AssignStmt", token.ASSIGN) }), "IMM01 must be reported for plain assignment (Tok == ASSIGN) only")
 			case s.Code == "IMM04":
-				c.dispatch(si, rule, []string{"AssignStmt<node>", "IndexExpr<AssignStmt.Lhs[]>", "SelectorExpr<IndexExpr.X>"})
+				c.dispatch(si, rule, []string{"AssignStmt<node>", "IndexExpr<unparen(AssignStmt.Lhs[])>", "SelectorExpr<unparen(IndexExpr.X)>"})
 				c.require(si, rule, "TOK(=)", si.take("tok", func(l Lit) bool { return l.Pos && tokAtom(l, "go/ast.AssignStmt", token.ASSIGN) }), "IMM04 must be reported for plain assignment (Tok == ASSIGN) only")
 			case s.Code == "IMM02":
-				c.dispatch(si, rule, []string{"AssignStmt<node>", "SelectorExpr<AssignStmt.Lhs[]>"})
+				c.dispatch(si, rule, []string{"AssignStmt<node>", "SelectorExpr<unparen(AssignStmt.Lhs[])>"})
 				c.require(si, rule, "TOK(op=)", si.take("tok", func(l Lit) bool { return !l.Pos && tokAtom(l, "go/ast.AssignStmt", token.ASSIGN) }), "IMM02 must be reported for compound assignment (Tok != ASSIGN) only")
 			case s.Code == "IMM03":
-				c.dispatch(si, rule, []string{"IncDecStmt<node>", "SelectorExpr<IncDecStmt.X>"})
+				c.dispatch(si, rule, []string{"IncDecStmt<node>", "SelectorExpr<unparen(IncDecStmt.X)>"})
 			default:
 				c.fail(rule+"/SITE-CODE", si.Name, P.Pos(s.Alloc.Pos()), "immutable report site with unexpected code "+s.Code)
 			}
